@@ -231,7 +231,12 @@ def gen_options(rng, ctx):
             opts[str(nm)] = vals
         else:
             pool = ["a", "ab", "abc", "b", "ba", "gr4j", "gr4j_v2", "GR4J", "x",
-                    "x_1", "x_10", "model1", "model10", "m"]
+                    "x_1", "x_10", "model1", "model10", "m",
+                    # values made of words joined by underscores: the end of one may be
+                    # the start of another option's value
+                    "north_east", "north", "east_wheat", "wheat", "east", "north_east_wheat",
+                    # identifier-like words that also read as numbers
+                    "nan", "NaN", "inf", "none", "true", "1e3"]
             vals = [str(v) for v in rng.choice(pool, size=nv, replace=False)]
             ctx.tag("opm:prefix-values")
             opts[str(nm)] = vals
@@ -245,8 +250,18 @@ def as_list(v):
 def run_opm(ctx):
     rng = ctx.rng(3)
     nrep = 60 if ctx.tier == "quick" else 3000
+    fixed = [
+        {"area": ["north_east", "north"], "crop": ["wheat", "east_wheat"], "year": [1, 2]},
+        {"a": ["x_y", "x"], "b": ["z", "y_z"], "c": ["y", "x_y_z"]},
+        {"fill": ["zero", "mean", "nan"], "k": [1, 2]},
+        {"fill": "NaN", "mode": ["inf", "-inf", "1e3"], "switch": ["true", "none"]},
+        {"site_id": ["410730", "41073", "0"], "model": ["gr4j_v2", "gr4j", "v2"]},
+    ]
     for it in range(nrep):
         opts = gen_options(rng, ctx)
+        if it < len(fixed) and ctx.shard % 4 == 0:
+            opts = fixed[it]
+            ctx.tag("opm:values-that-collide-when-joined-or-parsed")
         context = {}
         if rng.random() < 0.6:
             context = {"folder": "/a/b", "nval": int(rng.integers(0, 100))}
